@@ -140,11 +140,13 @@ static int bad_unwrap(fc_ctx* c, int j, err_t* exp)
 	case 1: /* storage fault in the encrypted key (last 40 octets) */
 		((octet*)c->a[2])[c->n[2] - 1 - fc_below(c, 40)] ^= (octet)(1u << fc_below(c, 8));
 		return 1;
-	case 2: /* truncation */
+	case 2: /* truncation (exact-size copy) */
 		c->n[2] -= 1 + fc_below(c, 8);
+		c->a[2] = fc_cut(c, c->a[2], c->n[2]);
 		return 1;
 	case 3:
 		c->n[2] = 0;
+		c->a[2] = fc_cut(c, c->a[2], 0);
 		return 1;
 	case 4: /* outer tag */
 		((octet*)c->a[2])[0] ^= 0x10;
@@ -359,7 +361,7 @@ static int bad_CVCIss(fc_ctx* c, int j, err_t* exp)
 	case 0: cv->authority[5] ^= 1; return 1;                         /* not issued by this CA */
 	case 1: b2_date(cv->from, (unsigned)c->n[27] + 1), b2_date(cv->until, (unsigned)c->n[27] + 2); return 1; /* CA expired at issue time */
 	case 2: if (c->n[26] == 0) return 0; b2_date(cv->from, (unsigned)c->n[26] - 1); return 1; /* before CA validity */
-	case 3: if (c->n[22] < 60) return 0; c->n[22] -= 1; return 1;      /* truncated CA cert */
+	case 3: if (c->n[22] < 60) return 0; c->n[22] -= 1; c->a[22] = fc_cut(c, c->a[22], c->n[22]); return 1;      /* truncated CA cert */
 	case 4: ((octet*)c->a[21])[3] ^= 1; return 1;                    /* CA key mismatch */
 	case 5: c->n[21] += 1; return 1;
 	case 6: ((octet*)c->a[22])[c->n[22] / 2] ^= 1; return 1;         /* damaged CA cert */
@@ -403,9 +405,9 @@ static int bad_cert_bytes(fc_ctx* c, int j, err_t* exp)
 		return 0; /* already shortened by another variant */
 	switch (j)
 	{
-	case 0: c->n[24] -= 1; return 1;
-	case 1: c->n[24] = 0; return 1;
-	case 2: c->n[24] = 2; return 1;
+	case 0: c->n[24] -= 1 + fc_below(c, 3); c->a[24] = fc_cut(c, c->a[24], c->n[24]); return 1;   /* truncated, exact size */
+	case 1: c->n[24] = 0; c->a[24] = fc_cut(c, c->a[24], 0); return 1;
+	case 2: c->n[24] = 2 + fc_below(c, 40); c->a[24] = fc_cut(c, c->a[24], c->n[24]); return 1;
 	case 3: ((octet*)c->a[24])[0] ^= 0x20; return 1;
 	case 4: ((octet*)c->a[24])[2] ^= 0x01; return 1;   /* outer length */
 	}
@@ -449,7 +451,7 @@ static int bad_CVCVal(fc_ctx* c, int j, err_t* exp)
 	case 2: ((octet*)c->a[5])[2] = 1, ((octet*)c->a[5])[3] = 9; return 1; /* month 19 */
 	case 3: ((octet*)c->a[24])[c->n[24] - 1 - fc_below(c, 40)] ^= 1; return 1; /* signature octet */
 	case 4: ((octet*)c->a[24])[c->n[24] / 3] ^= (octet)(1u << fc_below(c, 8)); return 1; /* signed octet */
-	case 5: c->n[22] -= 1; return 1;
+	case 5: c->n[22] -= 1; c->a[22] = fc_cut(c, c->a[22], c->n[22]); return 1;
 	case 6: ((octet*)c->a[22])[c->n[22] / 3] ^= 4; return 1;      /* issuer certificate altered */
 	}
 	return 0;
